@@ -131,6 +131,13 @@ impl ZmtpEngine {
     self.network_read_accumulator.len()
   }
 
+  /// True while what the engine emits is plain ZMTP frames; false once a record layer
+  /// (CURVE / NOISE_XX) is in place, whose records carry consecutive nonces and must therefore
+  /// reach the wire in the order they were sealed.
+  pub fn emits_plain_frames(&self) -> bool {
+    self.framer.is_passthrough()
+  }
+
   pub fn config(&self) -> &Arc<ZmtpEngineConfig> {
     &self.config
   }
